@@ -96,7 +96,7 @@ def new (n : Int) : PolicyQ := ⟨n, [], []⟩
 
 def len (q : PolicyQ) : Int := q.used.length + q.unused.length
 
-def holds (q : PolicyQ) (k : Int) : Bool := hasKey q.used k || hasKey q.unused k
+def holds (q : PolicyQ) (k : Int) : Bool := q.used.any (fun e => e.key == k) || q.unused.any (fun e => e.key == k)
 
 /-- the victim and the state without it -/
 def evict (q : PolicyQ) : Option (Entry × PolicyQ) :=
@@ -119,9 +119,24 @@ def put (h : Heap) (q : PolicyQ) (id : Nat) : PolicyQ × PutRes :=
   else ({ q with unused := q.unused ++ [⟨b.base, id⟩] }, .kept none)
 
 def removeKeyQ (q : PolicyQ) (k : Int) : PolicyQ :=
-  { q with used := removeKey q.used k, unused := removeKey q.unused k }
+  { q with used := q.used.filter (fun e => e.key != k), unused := q.unused.filter (fun e => e.key != k) }
 
-def find (q : PolicyQ) (k : Int) : Option Entry := (lookup q.unused k).or (lookup q.used k)
+/-- the block retained for base `k` (keys are pairwise distinct in every reachable state, so the order of
+the search is immaterial; it is fixed as newest used block first to make `find` total) -/
+def find (q : PolicyQ) (k : Int) : Option Entry :=
+  (q.used.reverse.find? (fun e => e.key == k)).or (q.unused.find? (fun e => e.key == k))
+
+/-- `Get(k)` at policy level: the block found leaves its queue (FIFO: unless it is `Used()`, as coded) -/
+def get (fifo : Bool) (h : Heap) (q : PolicyQ) (k : Int) : PolicyQ × Option Nat :=
+  match q.find k with
+  | none => (q, none)
+  | some e => (if fifo && (h e.id).used then q else q.removeKeyQ k, some e.id)
+
+/-- `Peek(k)` at policy level -/
+def peek (h : Heap) (q : PolicyQ) (k : Int) : Bool × Int :=
+  match q.find k with
+  | none => (false, -1)
+  | some e => (true, (h e.id).next)
 
 /-- evict `n` times (stops when empty) -/
 def dropN (q : PolicyQ) : Nat → PolicyQ
